@@ -68,6 +68,8 @@ impl<'a, 'b: 'a> Decoder<'a, 'b> {
         let start = self.offset;
         self.offset += length;
         if self.offset <= self.bytes.len() {
+            #[cfg(feature = "verif")]
+            crate::verif::count_octets(length);
             Ok(self.bytes.slice(start..self.offset))
         } else {
             Err(DecodeError::NotEnoughBytes(self.bytes.len(), self.offset))
